@@ -53,8 +53,12 @@ void *vt_lookup(const void *id, unsigned ks, unsigned vs, unsigned cap, unsigned
         if (m->e[i].used && memcmp(m->e[i].key, key, ks) == 0) { m->e[i].stamp = ++m->clock; return m->e[i].val; }
     return NULL;
 }
+/* environment fault: the next update of this map fails once (-ENOMEM: no free element could be obtained; -EBUSY on
+   some kernels), as bpf_map_update_elem is documented to be able to */
+static const void *vt_fail_update_of; static long vt_fail_update_rc;
 long vt_update(const void *id, unsigned ks, unsigned vs, unsigned cap, unsigned type, const void *key, const void *val) {
     struct vt_map *m = vt_get(id, ks, vs, cap, type);
+    if (vt_fail_update_of == id) { vt_fail_update_of = NULL; return vt_fail_update_rc; }
     void *p = vt_lookup(id, ks, vs, cap, type, key);
     if (p) { memcpy(p, val, vs); return 0; }
     unsigned full_at = cap < NENT ? cap : NENT;
@@ -94,6 +98,8 @@ struct thread {
     int straddled;                /* the policy changed between the two hooks of the in-flight connect */
     uint16_t cur_sport;           /* helper-granularity search: source port of the in-flight tcp_connect */
     int bound;                    /* the caller bound its socket to a local address (10.0.0.4) before connecting */
+    int handoff_failed;           /* the hand-off entry of this connect could not be stored (injected map-update failure): the
+                                     record cannot be demanded, the diversion still is */
 };
 static struct bpf_sock vt_bound_sock;
 struct world {
@@ -172,7 +178,7 @@ static void check_connect(struct world *w, struct thread *th, struct conn *c, ui
             snprintf(what, sizeof what, "protected connect by tgid %u was not diverted to 127.0.0.1:3080 (ctx ip %08x port %04x)", th->id.tgid, th->ctx.user_ip4, th->ctx.user_port);
             violation("not-diverted", what, w);
         }
-        if (sport) {
+        if (sport && !th->handoff_failed) {
             unsigned char k[8]; audit_key_of(sport, k);
             sock_addr_audit_entry *e = vt_lookup(&audit_map, 8, 20, 200, 9, k);
             if (!e) {
@@ -524,6 +530,25 @@ int main(int argc, char **argv) {
         step_thread(&w, 0, 0); if (w.th[0].pc % 2 == 1) step_thread(&w, 0, 0);
     }
     printf("STAT bound_socket_connects %ld\n", n_bound);
+    /* the hand-off entry cannot be stored (map update fails once with -ENOMEM / -EBUSY): a protected connect is still
+       diverted to the proxy (where, without a record, it is refused), never left to reach the endpoint directly */
+    long n_upfail = 0;
+    for (int pi = 0; pi < npol; pi++) for (int a = 0; a < nids; a++) for (int d = 0; d < nd; d++) for (int rc = 0; rc < 2; rc++) {
+        struct world w; memset(&w, 0, sizeof w);
+        memset(vt_maps, 0, sizeof vt_maps);
+        vt_update(&skip_process_map, 4, 4, 10, 1, skip_key, skip_val);
+        set_policy(policies[pi]);
+        (void)vt_lookup(&audit_map, 8, 20, 200, 9, "\0\0\0\0\0\0\0\0"); (void)vt_lookup(&local_map, 8, 24, 200, 9, "\0\0\0\0\0\0\0\0");
+        save_world(&w);
+        w.nth = 1; w.policy_bits = policies[pi]; w.next_sport = 40001;
+        w.th[0].id = ids[a]; w.th[0].is_agent = ids[a].tgid == agent_pid; w.th[0].nconn = 1; w.th[0].c[0] = dests[d]; w.th[0].handoff_failed = 1;
+        if (w.tlen < 90) { memcpy(w.trace, "upfail:", 7); w.tlen = 7; }
+        vt_fail_update_of = &local_map; vt_fail_update_rc = rc == 0 ? -12 : -16;
+        n_configs++; n_upfail++;
+        step_thread(&w, 0, 0); if (w.th[0].pc % 2 == 1) step_thread(&w, 0, 0);
+        vt_fail_update_of = NULL;
+    }
+    printf("STAT handoff_update_failure_connects %ld\n", n_upfail);
     printf("STAT connects_not_judged_policy_changed_between_hooks %ld\n", n_unspecified);
     printf("STAT configurations %ld\nSTAT states %ld\nSTAT transitions %ld\nSTAT connects_checked %ld\nSTAT diverts_expected %ld\nSTAT helper_calls %ld\nSTAT violations %ld\n", n_configs, n_states, n_trans, n_connects_checked, n_divert_expected, vt_helper_calls, n_viol);
     printf("STAT fine_configurations %ld\nSTAT fine_executions %ld\nSTAT fine_steps %ld\nSTAT fine_max_preemptions %ld\n", n_fine_configs, n_fine_exec, n_fine_steps, n_fine_maxpre);
